@@ -28,6 +28,11 @@ fn main() {
     if args[1] == "c18worker" {
         std::process::exit(vharness::checks_dot::c18_worker(&args[2]));
     }
+    #[cfg(feature = "hooks")]
+    if args[1] == "selftest" {
+        let n = args.get(2).and_then(|s| s.parse().ok()).unwrap_or(20_000);
+        std::process::exit(vharness::selftest::run(n, 1));
+    }
     if args[1] == "replay" {
         let Some(path) = args.get(2) else { usage() };
         std::process::exit(replay(path));
@@ -91,9 +96,57 @@ fn replay(path: &str) -> i32 {
     let kind = case["kind"].as_str().unwrap_or("");
     let r = match kind {
         "tok" | "tok_gate" | "tok_select" | "wf" => vharness::checks_tok::replay_tok(case),
+        #[cfg(feature = "hooks")]
+        "lang" => {
+            let cfg: Result<vharness::cfg::ScannerCfg, _> = serde_json::from_value(case["cfg"].clone());
+            match cfg {
+                Err(e) => Err(format!("bad case: {}", e)),
+                Ok(cfg) => {
+                    let which = if prop == "C03" { vharness::checks_lang::Which::C03 } else { vharness::checks_lang::Which::C02 };
+                    let mut st = vharness::monitor::Stats::default();
+                    vharness::checks_lang::lang_check_cfg(&cfg, which, &mut st).map_err(|v| v.what)
+                }
+            }
+        }
         _ => {
-            eprintln!("replay of case kind {:?} is not supported; the case data in the file is complete", kind);
-            return 2;
+            // regenerate the case from (seed, stream, index)
+            let (Some(seed), Some(stream), Some(index)) = (case["seed"].as_u64(), case["stream"].as_u64(), case["index"].as_u64()) else {
+                eprintln!("replay of case kind {:?} is not supported; the case data in the file is complete", kind);
+                return 2;
+            };
+            use vharness::monitor::{CaseOutcome, Stats};
+            use vharness::rng::Rng;
+            let mut rng = Rng::for_case(seed, stream, index);
+            let mut st = Stats::default();
+            let out = match (prop.as_str(), stream) {
+                ("C06", 1) => vharness::checks_hist::c06_case(&mut rng, &mut st),
+                ("C07", 3) => vharness::checks_hist::c07_history_case(&mut rng, &mut st),
+                ("C09", 1) => vharness::checks_hist::c09_case(&mut rng, &mut st),
+                ("C10", 1) => vharness::checks_hist::c10_case(&mut rng, &mut st),
+                ("C11", 1) => vharness::checks_hist::c11_case(&mut rng, &mut st),
+                ("C12", 1) => vharness::checks_hist::c12_case(&mut rng, &mut st),
+                ("C13", 1) => vharness::checks_conc::c13_case(&mut rng, index, &mut st),
+                ("C14", 1) => {
+                    let progress = std::sync::atomic::AtomicU64::new(0);
+                    vharness::checks_conc::c14_round(&mut rng, index, &mut st, &progress)
+                }
+                ("C15", 1) => vharness::checks_misc::c15_soup_case(&mut rng, index, &mut st),
+                ("C15", 2) => vharness::checks_misc::c15_planted_case(&mut rng, index, &mut st),
+                ("C15", 3) => vharness::checks_misc::c15_supported_case(&mut rng, index, &mut st),
+                ("C16", 1) => vharness::checks_misc::c16_case(&mut rng, index, &mut st),
+                ("C08", 1) => vharness::checks_class::c08_class_case(&mut rng, index, &mut st),
+                ("C08", 2) => vharness::checks_class::c08_literal_case(&mut rng, index, &mut st),
+                #[cfg(feature = "hooks")]
+                ("C18", 1) => vharness::checks_dot::c18_case(&mut rng, index, &mut st),
+                _ => {
+                    eprintln!("no regenerating replay for {} stream {}; the case data in the file is complete", prop, stream);
+                    return 2;
+                }
+            };
+            match out {
+                CaseOutcome::Violated(v) => Err(v.what),
+                _ => Ok(()),
+            }
         }
     };
     match r {
